@@ -47,7 +47,7 @@ var c10Weights = core.OpWeights{
 
 func genC10(t *rapid.T, tier string) C10Case {
 	c := C10Case{Cfg: core.GenConfig(t, tier, core.GenOpts{
-		Vals:     []string{core.VInt, core.VString},
+		Vals:     []string{core.VInt, core.VInt, core.VString, core.VString, core.VPtr, core.VTags, core.VNil},
 		Caches:   []string{"none", "none", "big", "arc4"},
 		BigOneIn: 20,
 	})}
